@@ -606,7 +606,16 @@ def truth(a):
         return ite(a.args[0], truth(_unfz1(a.args[1])), truth(_unfz1(a.args[2])))
     if a.op in ("cat", "scat") and any(isinstance(p, (str, bytes)) and len(p) for p in a.args):
         return True
+    if a.op == "band" and len(a.args) == 2 and 128 in a.args and any(_is_byte_term(x) for x in a.args):
+        y = [x for x in a.args if _is_byte_term(x)][0]
+        return cmp("ge", y, 128)  # the top bit of a byte is set  <=>  the byte is >= 0x80
+    if a.op == "shr" and a.args[1] == 7 and _is_byte_term(a.args[0]):
+        return cmp("ge", a.args[0], 128)
     return T("truth", (a,), BOOL)
+
+
+def _is_byte_term(v):
+    return isinstance(v, T) and v.op == "idx" and tyof(_unfz1(v.args[0])) == BYTES
 
 
 def _unfz1(v):
